@@ -45,4 +45,19 @@ theorem history (c : Cfg) (g : Glob) (hc : CfgOk c) (hmac : c.failMac = false) :
     simp only [C05.runObs, holdsC03, List.all_cons, Bool.and_eq_true]
     exact ⟨step_holds c g w st img hc hmac (himgs img (by simp)), ih _ _ (fun i h => himgs i (by simp [h]))⟩
 
+
+/-- with the attributes changing from frame to frame, every fault schedule -/
+theorem history_varying :
+    ∀ (items : List (Cfg × Glob × List Nat)) (w : World) (st : St),
+      (∀ it ∈ items, CfgOk it.1 ∧ it.1.failMac = false ∧ ImgOk it.2.2) → holdsC03 (C05.runObsV w st items) = true := by
+  intro items
+  induction items with
+  | nil => intro _ _ _; rfl
+  | cons it rest ih =>
+    intro w st hitems
+    obtain ⟨c, g, img⟩ := it
+    obtain ⟨hc, hmac, him⟩ := hitems (c, g, img) (by simp)
+    simp only [C05.runObsV, holdsC03, List.all_cons, Bool.and_eq_true]
+    exact ⟨step_holds c g w st img hc hmac him, ih _ _ (fun i h => hitems i (by simp [h]))⟩
+
 end LLTD.C03H
